@@ -4,6 +4,7 @@ import Rare.Model.C15Trunc
 import Rare.Model.C15Rename
 import Rare.Model.C15Replace
 import Rare.Model.C15Wiring
+import Rare.Model.C15Open
 import Rare.Model.C15Api
 import Rare.Model.C15Tail
 import Rare.Model.C15Trace
@@ -485,6 +486,25 @@ def newAnswer (reopen poll exists_ : Bool) : String :=
   | (.notify, r) => s!"ok kind=notify reopen={bit r}"
   | (.poll, r) => s!"ok kind=poll reopen={bit r} attempts={Rare.C15.Wiring.defaultAttempts} delayms={Rare.C15.Wiring.defaultDelayMs}"
 
+/-! ### the goroutine prologue (`Rare.C15.Open`): `prologue <mode> <reopen> <tail> <state> <content lines> <extra lines>` -/
+
+def splitNl (bs : List UInt8) : List (List UInt8) :=
+  let r := bs.foldl (fun (acc : List (List UInt8) × List UInt8) b =>
+    if b == 10 then (acc.1 ++ [acc.2], []) else (acc.1, acc.2 ++ [b])) ([], [])
+  r.1
+
+def prologueAnswer (mode reopenS tailS stateS contentS extraS : String) : String :=
+  match Rare.C15.Open.parseState stateS, Proto.decHexList contentS, Proto.decHexList extraS with
+  | some st, some content, some extra =>
+    let w : Rare.C15.Wiring.Follow :=
+      { kind := if mode == "poll" then .poll else .notify, reopen := reopenS == "1", tail := tailS == "1" }
+    let nl (ls : List (List UInt8)) : List UInt8 := ls.flatMap fun l => l ++ [10]
+    let cb := nl content
+    let o := Rare.C15.Open.prologue w st cb.length
+    let lines := splitNl (Rare.C15.Open.delivers w st cb (nl extra))
+    s!"ok closed={bit (!o.started)} errors={o.errors} started={bit o.started} lines={Proto.hexList lines}"
+  | _, _, _ => "bad-args"
+
 def cliAnswer (spec : String) : String :=
   let toks := if spec == "-" then [] else spec.splitOn "+"
   match Rare.C15.Wiring.parseFlags toks with
@@ -562,6 +582,7 @@ def handle : List String → String
   | ["api", _, _, content, calls] => apiAnswer content calls
   | ["new", r, p, e] => newAnswer (r == "1") (p == "1") (e == "1")
   | ["cli", spec] => cliAnswer spec
+  | ["prologue", mode, r, t, st, content, extra] => prologueAnswer mode r t st content extra
   | ["tailb", blob] => tailb blob
   | ["ttrace", blob] => ttrace blob false
   | ["tmut", blob] => ttrace blob true
